@@ -5,6 +5,7 @@ C07 — soft limit: when the eviction callback runs, with what, and the resultin
 -/
 import Lockable.Proofs.Evict
 import Lockable.Proofs.Term
+import Lockable.Proofs.Returns
 namespace Lockable
 
 theorem lookup_not_list (s : State) (h k : Nat) (l : List Nat) : (lookup s h k).2 ≠ .list l := by
@@ -157,6 +158,13 @@ theorem C07_cooperative_terminates (a : Api) (h k n h0 : Nat) (hn : 1 ≤ n) (hi
   have : eligCount a.s ≤ a.s.order.length := by
     unfold eligCount; exact List.length_filter_le _ _
   omega
+
+/-- **"If the callback removes what it is given, the call returns"**: a soft-limited acquisition with the cooperative callback
+always comes back — with a guard, or `None` / a pending acquisition when somebody else holds or awaits the key. -/
+theorem C07_cooperative_returns (a : Api) (v : Variant) (h k n h0 : Nat) (hn : 1 ≤ n) (hi : Inv a.s)
+    (hfr : a.s.hs h = none) (hlt : h < h0) (hfree : ∀ x, h0 ≤ x → a.s.hs x = none) (hlen : a.s.order.length ≤ supplyLen) :
+    Returned (a.lock v h k (.soft n []) h0).2.res :=
+  lock_cooperative_returns a v h k n h0 hn hi hfr hlt hfree hlen
 
 /-- non-vacuity: limit 2, three valued entries one of which is locked: exactly two candidates, in order -/
 example :
